@@ -27,7 +27,8 @@ PROP = {
     'nontrivial_stats': ['train.sl.step_ok'],
     'rule': 'each evaluation is one real speed-limited step (whole solve_step, solve_required_pwr, calc_speeds, friction brake) '
             'on generated routes (grades to 1.2 %, restriction patterns incl. short faster windows), path supplied whole, link by '
-            'link, or extended DURING the walk; non-trivial = every accepted step',
+            'link, or extended DURING the walk (first authority covering the standing train, or deliberately too short), plus whole '
+            'walk_timed_path runs on generated timed paths (black box, judged from the saved history); non-trivial = every accepted step',
     'level': 'proof',
     'assumptions': [FLOAT_ASSUMPTION,
                     'PARTIAL: the closed-loop claim (no overspeed / no panic / termination for all tracks) is searched by the '
@@ -46,5 +47,8 @@ TEXT = {
              'bounds; the walk loop exits only at rest inside the window or at/after the end (C03_walk_exit). The closed-loop claim itself is FALSE of model and code: '
              'C03_never_overspeeds_counterexample (brakes saturate on a downgrade) and C03_never_reverses_counterexample are kernel-checked; on the real code the overspeed '
              'assertion and a curve point in a slower zone are reproduced by the oracle and reported as KNOWN-FINDINGs; every other violation on whole runs (negative speed, '
-             'target above limit, stop outside the path, any other panic) is still a VIOLATION. '),
+             'target above limit, stop outside the path, any other panic) is still a VIOLATION. The real walk_timed_path (timed path from dispatch: authority arriving '
+             'early, on time or late) is run as a black box and judged row by row from its saved history against the network\'s posted restrictions; a budgeted copy of its loop decides '
+             'first whether the walk ends at all — this exposed a run that never returned (train at rest with target 0 short of the stopping window), repaired by fix: c76dec1: the walk '
+             'now ends with a descriptive error, and the harness checks on every such state that it is a fixed point of step() and that the real walk() reports it. '),
 }
